@@ -721,6 +721,33 @@ pub fn gen(ctx: &Ctx) -> Vec<Value> {
             push(&r, col.clone(), ints.iter().take(11).map(|v| json!({"w": kind, "v": fit_kind(kind, *v)})).collect(), &mut out);
         }
     }
+    // ---- grid 1b: exhaustive small scope for the crate's own span parser: EVERY string up to length 3 (quick) / 4
+    // (thorough) over the designators, two digits, the period, the sign and the time separator, into Duration columns
+    {
+        let alphabet = ['P', 'T', '1', '9', '.', '-', 'D', 'H', 'S', 'W', 'M'];
+        let maxlen = if ctx.thorough() { 4 } else { 3 };
+        let mut all: Vec<String> = Vec::new();
+        let mut frontier: Vec<String> = vec![String::new()];
+        for _ in 0..maxlen {
+            let mut next = Vec::new();
+            for t in &frontier {
+                for c in alphabet {
+                    let mut u = t.clone();
+                    u.push(c);
+                    next.push(u);
+                }
+            }
+            all.extend(next.iter().cloned());
+            frontier = next;
+        }
+        let units: &[&str] = if ctx.thorough() { &["s", "ms", "us", "ns"] } else { &["s", "ns"] };
+        for u in units {
+            let r = rng.fork();
+            for chunk in all.chunks(250) {
+                push(&r, json!({"t": "Duration", "unit": u}), chunk.iter().map(|t| json!({"w": "str", "v": t})).collect(), &mut out);
+            }
+        }
+    }
     // ---- grid 2: tz settings, including unsupported ones, and width/unit pairings the builder refuses
     for tz in ["UTC", "utc", "Utc", "uTC", "+00:00", "Z", "", "UTC ", " UTC", "Europe/Berlin", "UTſ", "utç", "GMT", "U T C"] {
         for u in ["s", "ns"] {
